@@ -233,3 +233,125 @@ def structure_clauses(prog, b, fw):
             if outer.get(name) is not originals[name]:
                 out.append(("imported_name_shadowed", f"{name} in the scope enclosing {'.'.join(qual)} is {outer.get(name)!r}"))
     return out
+
+
+# ------------------------------------------------------------------------------------------------
+# C04: independent rendering of the IR as typing objects, compared with the emitted classes
+# ------------------------------------------------------------------------------------------------
+from json_to_models.models.base import prepare_label as _lib_prepare_label  # name oracle only when the key is not recoverable
+
+
+def denote(t, fw, by_model, max_literals=10):
+    """typing object the IR type stands for under the framework's documented style"""
+    k = ir.kind(t)
+    if k == "any":
+        return typing.Any
+    if k == "null":
+        return type(None)
+    if k in ("int", "float", "bool", "str"):
+        return {"int": int, "float": float, "bool": bool, "str": str}[k]
+    if k == "pseudo":
+        return t.actual_type if fw in ("pydantic", "sqlmodel") else t
+    if k == "lit":
+        if fw == "attrs" or t.overflowed or not t.literals:
+            return str
+        if max_literals is not None and not (len(t.literals) < max_literals):
+            return str
+        return typing.Literal[tuple(sorted(t.literals))]
+    if k == "opt":
+        return typing.Optional[denote(t.type, fw, by_model, max_literals)]
+    if k == "list":
+        return typing.List[denote(t.type, fw, by_model, max_literals)]
+    if k == "dict":
+        return typing.Dict[str, denote(t.type, fw, by_model, max_literals)]
+    if k == "union":
+        return typing.Union[tuple(denote(m, fw, by_model, max_literals) for m in t.types)]
+    if k == "ptr":
+        return by_model[t.type.index]
+    raise ValueError(f"cannot denote {k}")
+
+
+def denotation_clauses(prog, b, fw, max_literals=10, meta_on=False, convert_unicode=True):
+    """C04 clauses on a loaded program. Returns [(clause, detail)]."""
+    out = []
+    mapping, problems = program.model_classes(prog, b.reg)
+    if problems:
+        return [("model_without_unique_class", str(problems))]
+    by_model = {idx: cls for idx, (qual, cls) in mapping.items()}
+    for idx, (qual, cls) in mapping.items():
+        model = b.reg.models_map[idx]
+        cname = ".".join(qual)
+        try:
+            hints = prog.hints(qual)
+        except Exception as e:
+            out.append(("annotation_unresolvable", f"{cname}: {type(e).__name__}: {e}"))
+            continue
+        table = program.field_table(cls, fw)
+        keys = dict(model.type)
+        if fw in ("pydantic", "sqlmodel"):
+            keys = {k: v for k, v in keys.items() if ir.kind(v) not in ("any", "null")}
+        recoverable = fw in ("pydantic", "sqlmodel") or (meta_on and fw in ("attrs", "dataclasses"))
+        if recoverable:
+            got = {}
+            for f in table:
+                got.setdefault(f.key, []).append(f)
+        else:
+            # key not recoverable from the class by design: map keys to fields through the sanitised name
+            exp = {}
+            for key in keys:
+                nm = key if (fw == "sqlmodel" and key in ("id", "pk")) else _lib_prepare_label(key, convert_unicode=convert_unicode, to_snake_case=True)
+                exp.setdefault(nm, []).append(key)
+            got = {}
+            for f in table:
+                for key in exp.get(f.name, [f.name]):
+                    got.setdefault(key, []).append(f)
+        if set(got) != set(keys) or any(len(v) != 1 for v in got.values()) or len(table) != len(keys):
+            out.append(("fields_do_not_match_model_keys", f"{cname}: class recovers keys {sorted(got)} ({len(table)} fields), "
+                        f"model has {sorted(keys)}"))
+            continue
+        for key, t in keys.items():
+            f = got[key][0]
+            if recoverable and f.name != key and f.key != key:
+                out.append(("original_key_not_recoverable", f"{cname}.{f.name}: recovered {f.key!r}, key {key!r}"))
+            want = denote(t, fw, by_model, max_literals)
+            have = hints.get(f.name, program.MISSING)
+            if have is program.MISSING or have != want:
+                out.append(("annotation_differs_from_model_type", f"{cname}.{f.name}: annotation {have!r}, model type denotes {want!r}"))
+            if fw == "base":
+                continue
+            optional = ir.kind(t) == "opt"
+            if f.has_default != optional:
+                out.append(("default_iff_optional", f"{cname}.{f.name}: has_default={f.has_default}, optional={optional}"))
+            elif optional:
+                inner = ir.kind(t.type)
+                if fw in ("pydantic", "sqlmodel"):
+                    dv = f.factory() if f.factory else f.default
+                    ok = (dv == [] and isinstance(dv, list)) if inner == "list" else \
+                         (dv == {} and isinstance(dv, dict)) if inner == "dict" else dv is None
+                else:
+                    if inner == "list":
+                        ok = f.factory is list
+                    elif inner == "dict":
+                        ok = f.factory is dict
+                    else:
+                        ok = f.factory is None and f.default is None
+                if not ok:
+                    out.append(("wrong_default_value", f"{cname}.{f.name}: type {ir.type_shape(t)} default={f.default!r} factory={f.factory!r}"))
+    return out
+
+
+def placement_clauses(prog, b, layout):
+    """each class is the class emitted for exactly one model; nested: a class sits inside the class that references it"""
+    out = []
+    mapping, problems = program.model_classes(prog, b.reg)
+    if problems:
+        return [("model_without_unique_class", str(problems))]
+    if layout == "nested":
+        for idx, (qual, cls) in mapping.items():
+            m = b.reg.models_map[idx]
+            parents = {p.parent.index for p in m.pointers if p.parent is not None}
+            if len(parents) == 1:
+                pq = mapping[next(iter(parents))][0]
+                if qual[:-1] != pq:
+                    out.append(("nested_class_not_inside_referencing_class", f"{'.'.join(qual)} referenced by {'.'.join(pq)}"))
+    return out
